@@ -70,6 +70,10 @@ class Generator(SchemaVisitor[Any]):
 
         min_value = schema.props.min if (schema.props.min is not Nil) else INT_MIN
         max_value = schema.props.max if (schema.props.max is not Nil) else INT_MAX
+        if schema.props.max is Nil:
+            max_value = max(max_value, min_value)
+        if schema.props.min is Nil:
+            min_value = min(min_value, max_value)
         return self._random.random_int(min_value, max_value)
 
     def visit_float(self, schema: FloatSchema, **kwargs: Any) -> float:
